@@ -76,10 +76,20 @@ type State struct {
 	alloc  string
 	defers []*deferred
 	held   []string // lockset (terms), C12/C15
+	// havocs by pattern that were applied before some heap variable was first used in this function
+	// context: a variable that shows up later and matches must not read as its entry value
+	pending []pendHavoc
+}
+
+type pendHavoc struct {
+	kind string // all, except, pat
+	pat  string
+	n    int // number of heap variables declared when the havoc was applied: only later ones are affected
 }
 
 func (s *State) clone() *State {
 	n := &State{pc: s.pc, alloc: s.alloc}
+	n.pending = append([]pendHavoc(nil), s.pending...)
 	n.locals = make(map[*ssa.Alloc]string, len(s.locals))
 	for k, v := range s.locals {
 		n.locals[k] = v
@@ -95,6 +105,7 @@ func (s *State) clone() *State {
 
 type heapVar struct {
 	name string // SMT base name
+	idx  int    // position in hvOrder
 	sort string
 	kind string // field box elem mapdom mapval maplen global ghost iter
 	ty   types.Type
@@ -129,6 +140,7 @@ type FnCtx struct {
 	usedLemmas map[string]bool
 	entryHeld []string
 	serves    []string // wait objects this activation serves (C15)
+	obProps   []string
 	localBoxes map[string][]string
 	curArgs []Val
 	loopDecs map[*loopInfo]string
@@ -160,7 +172,7 @@ func (fc *FnCtx) heapVarOf(key, sortName, kind string, ty types.Type) *heapVar {
 	if h, ok := fc.hv[key]; ok {
 		return h
 	}
-	h := &heapVar{name: "H$" + sanitize(key), sort: sortName, kind: kind, ty: ty}
+	h := &heapVar{name: "H$" + sanitize(key), sort: sortName, kind: kind, ty: ty, idx: len(fc.hvOrder)}
 	fc.hv[key] = h
 	fc.hvOrder = append(fc.hvOrder, key)
 	fc.sc.Header("hv:"+key, fmt.Sprintf("(declare-const %s %s)", h.name, sortName))
@@ -172,7 +184,34 @@ func (fc *FnCtx) heapGet(st *State, key string) string {
 		return t
 	}
 	h := fc.hv[key]
+	for _, p := range st.pending {
+		hit := false
+		if h.idx < p.n {
+			continue // declared before that havoc: it was havocked (or deliberately kept) then
+		}
+		switch p.kind {
+		case "all":
+			hit = true
+		case "except":
+			hit = !exceptMatch(p.pat, key)
+		case "pat":
+			hit = keyMatches(p.pat, key)
+		}
+		if hit && h.kind != "iter" {
+			t := fc.sc.Fresh(h.name, h.sort)
+			st.heap[key] = t
+			return t
+		}
+	}
 	return h.name
+}
+
+func keyMatches(pat, k string) bool {
+	if strings.HasSuffix(pat, "*") {
+		p := strings.TrimSuffix(pat, "*")
+		return strings.HasPrefix(k, p) || strings.Contains(k, "|"+p)
+	}
+	return k == pat || strings.HasSuffix(k, "|"+pat)
 }
 
 func (fc *FnCtx) fieldKey(owner types.Type, idx int) string {
@@ -296,6 +335,9 @@ func (fc *FnCtx) oblige(st *State, kind, goal string, pos token.Pos, detail stri
 	}
 	if fc.con != nil {
 		o.Props = fc.con.Props
+	}
+	if fc.obProps != nil {
+		o.Props = fc.obProps // `assert@Cnn E`: an obligation that belongs to one property only
 	}
 	fc.obs = append(fc.obs, o)
 }
@@ -896,6 +938,17 @@ func (fc *FnCtx) merge(ins []inEdge) *State {
 		}
 	}
 	res.alloc = mergeTerm(func(s *State) string { return s.alloc }, "Int", "alloc")
+	// pending havocs: the union over the incoming states (conservative)
+	res.pending = nil
+	seenP := map[pendHavoc]bool{}
+	for _, e := range ins {
+		for _, p := range e.st.pending {
+			if !seenP[p] {
+				seenP[p] = true
+				res.pending = append(res.pending, p)
+			}
+		}
+	}
 	// defers and locksets must agree
 	for _, e := range ins[1:] {
 		if len(e.st.defers) != len(res.defers) {
